@@ -149,11 +149,14 @@ DoVary == \E v \in Variations : Vary(v)
                options NOPRINT ONEHEADER FILE= that estimation / table edits remove and re-append
      thetaRep  one $THETA record holding a (v)xn repeat FOLLOWED by another theta (three parameters)
      thetaInf  one $THETA record with several parameters and explicit infinite bounds
+     codeCmt   the code record ($PK / $PRED) has comment lines between its statements, a verbatim line, a comment
+               line directly before its last statement and an unused first statement (WT70=70)
      omega4 / sigma4   the two records of the kind hold two values each (a later record next to an earlier one)  *)
-Decorations == {"tableML", "thetaRep", "thetaInf", "omega4", "sigma4"}
+Decorations == {"tableML", "thetaRep", "thetaInf", "omega4", "sigma4", "codeCmt"}
 Decorate(d) ==
     /\ Mode = "rec" /\ phase = "layout" /\ nuid < Len(BaseLayout) + MaxExtra /\ d \notin decor
     /\ d = "tableML" => HasKind(stream, "TABLE")
+    /\ d = "codeCmt" => HasKind(stream, "PK") \/ HasKind(stream, "PRED")
     /\ d = "thetaRep" => CountKind(stream, "THETA") = 1 /\ "thetaInf" \notin decor
     /\ d = "thetaInf" => CountKind(stream, "THETA") = 1 /\ "thetaRep" \notin decor
     /\ d = "omega4" => CountKind(stream, "OMEGA") = 2
@@ -185,6 +188,7 @@ RemoveRecord(s, i) == [j \in 1..(Len(s) - 1) |-> IF j < i THEN s[j] ELSE s[j + 1
 StartEdit(e) == /\ Mode = "rec" /\ phase = "layout"
                 /\ (e \in {"PkStatement", "RemoveTheta"}) => HasKind(stream, "PK") \/ HasKind(stream, "PRED")
                 /\ (e = "PkStatement") => HasKind(stream, "PK")
+                /\ (e \in {"CodeInsertThenEdit", "CodeRemoveThenEdit"}) => "codeCmt" \in decor
                 /\ (e = "PredStatement") => HasKind(stream, "PRED")
                 /\ (e = "ErrorStatement") => HasKind(stream, "ERROR")
                 /\ (e = "Rename") => HasKind(stream, "TABLE")
